@@ -8,7 +8,10 @@ package gts
 // Bound: coordinates {0,1,4,9}; leaf locations = points, between-sites, every range with every
 // partial-marker combination, ambiguous spans (36 leaves); the complement of each; Join and Order
 // of every ordered pair of leaves, complement(join), joins with one complemented part; Join/Order
-// of sampled triples and one level of nesting (order of a join and a leaf).  Also: the same text
+// of sampled triples and one level of nesting (a join as the first, a later, or a complemented
+// operand of an order or join); sampled joins/orders/complements nested to depth 3 with 1..5 parts
+// per level, built with the constructors Join, Order and Complement() (a literal
+// Complemented{Complemented{x}} is not a value the library produces).  Also: the same text
 // with a space after every comma, and the legacy spelling `a..b>` of a 3'-partial range, must
 // parse to the same value.
 
@@ -90,6 +93,32 @@ func TestVerifBoundedLocationText(t *testing.T) {
 	for k := 0; k < nt; k++ {
 		a, b, c := pick(), pick(), pick()
 		locs = append(locs, Join(a, b, c), Order(a, b, c), Order(Join(a, b), c), Complemented{Order(a, b, c)})
+		// a compound as a later operand of another compound
+		locs = append(locs, Order(c, Join(a, b)), Join(c, Complemented{Join(a, b)}), Order(a, Complemented{Order(b, c)}), Order(a, Join(b, c), pick()))
+	}
+	// joins/orders/complements nested to depth 3 with 1..5 parts
+	var gen func(d int) Location
+	gen = func(d int) Location {
+		if d == 0 || rng.Intn(3) == 0 {
+			return pick()
+		}
+		n := 1 + rng.Intn(5)
+		parts := make([]Location, n)
+		for i := range parts {
+			parts[i] = gen(d - 1)
+		}
+		switch rng.Intn(4) {
+		case 0:
+			return Join(parts...)
+		case 1:
+			return Order(parts...)
+		case 2:
+			return Join(parts...).Complement()
+		}
+		return Order(parts...).Complement()
+	}
+	for k := 0; k < nt; k++ {
+		locs = append(locs, gen(3))
 	}
 	fails := map[string]*vlFail{}
 	rec := func(clause string, x Location, extra string) {
